@@ -1,54 +1,106 @@
 (* C14 — Silent-mode buffer: exactly-once, in-order hand-off across the first-send race.
-   Only property theorems; proofs in TSS.Box.Handoff (sequential) and TSS.Box.ConcFacts (lock-granular). *)
+   Only property theorems; proofs in TSS.Box.Handoff (sequential), TSS.Box.SyncFacts (lock-granular, the repaired Box of
+   /repo) and TSS.Box.ConcFacts (lock-granular, the pinned upstream Box: refutations). *)
 Require Import TSS.Base.Base TSS.Box.Model TSS.Box.Assoc TSS.Box.Inv TSS.Box.Handoff TSS.Box.Refute
-               TSS.Box.Conc TSS.Box.ConcFacts.
+               TSS.Box.Sync TSS.Box.SyncFacts TSS.Box.Conc TSS.Box.ConcFacts.
 
-(* (1) When receive and send calls do not overlap: for EVERY operation list in which nothing is shed (limits) or
-   discarded (expiry), per topic, the messages handed over so far followed by the messages still buffered are exactly
-   the messages received, in arrival order - each exactly once; and a Send leaves nothing of its topic buffered
-   (C15_release_on_start), so every message received before the first Send is handed over by it, later ones at once. *)
+(* (1) For ALL interleavings at lock granularity of any number of goroutines, each making any sequence of HandleMessage and
+   Send calls on the same and on different topics, at EVERY point of the run: per topic and sender, the messages handed
+   to the dispatcher so far, followed by those that have arrived and are waiting - in the hands of the draining Send,
+   in its queue, buffered for a topic that has not started, in the hands of the delivering goroutine - are exactly the
+   messages that have arrived, in arrival order.  Hence no message is handed over twice, none is lost, none overtakes an
+   earlier one of its sender, whether it arrives before, during or after the first Send on its topic.
+   Premises: the messages of one sender are delivered by one goroutine (the reader of the connection to that peer: the
+   "arrival order" of the statement), and nothing is shed because of the limits ("provided the sender stays within the
+   documented limits"). *)
+Theorem C14_exactly_once_in_order :
+  forall c, var c = v_fixed -> forall scripts sched,
+  one_reader (map (mkTh Idle) scripts) ->
+  let w := wrun c scripts sched in
+  slossless (wlog w) ->
+  forall t src, filter (sel (t, src)) (handoffs (wlog w)) ++ waiting (t, src) (wbox w) (wths w) =
+                filter (sel (t, src)) (arrivals (wlog w)).
+Proof. exact exactly_once_in_order. Qed.
+Print Assumptions C14_exactly_once_in_order.
+
+(* (2) ... and when every call has returned nothing is waiting in anybody's hands or in a draining queue: the hand-overs
+   followed by what is buffered are the arrivals; for a topic that has started nothing is buffered, so every message that
+   arrived for it has been handed over, exactly once and in order (no message waits for a later Send). *)
+Theorem C14_complete_when_quiescent :
+  forall c, var c = v_fixed -> forall scripts sched,
+  one_reader (map (mkTh Idle) scripts) ->
+  let w := wrun c scripts sched in
+  slossless (wlog w) -> forallb finished (wths w) = true ->
+  forall t src,
+    (forall t0, aget teqb (drainq (wbox w)) t0 = None) /\
+    filter (sel (t, src)) (handoffs (wlog w)) ++ filter (sel (t, src)) (buffered (sb (wbox w)) t) =
+      filter (sel (t, src)) (arrivals (wlog w)) /\
+    (is_started (wbox w) t = true ->
+       buffered (sb (wbox w)) t = [] /\ filter (sel (t, src)) (handoffs (wlog w)) = filter (sel (t, src)) (arrivals (wlog w))).
+Proof. exact quiescent_complete. Qed.
+Print Assumptions C14_complete_when_quiescent.
+
+(* (3) The arrival order of the messages of a sender is the order in which its reader calls HandleMessage: arrivals so
+   far followed by the messages of the calls the reader has still to make = the messages of the reader's script. *)
+Theorem C14_arrival_order_is_call_order :
+  forall c scripts sched,
+  one_reader (map (mkTh Idle) scripts) ->
+  let w := wrun c scripts sched in
+  forall src, from src (arrivals (wlog w)) ++ flat_map (rk src) (wths w) = flat_map (fun l => from src (recvs l)) scripts.
+Proof. exact arrival_order_is_call_order. Qed.
+Print Assumptions C14_arrival_order_is_call_order.
+
+(* (4) No interleaving makes the Box panic, whatever the limits. *)
+Theorem C14_never_panics :
+  forall c, var c = v_fixed -> forall scripts sched, ~ In SPanic (wlog (wrun c scripts sched)).
+Proof. exact never_panics. Qed.
+Print Assumptions C14_never_panics.
+
+(* (5) When receive and send calls do not overlap, with the garbage collector and the clock: for EVERY operation list in
+   which nothing is shed (limits) or discarded (expiry), per topic, the messages handed over so far followed by the messages
+   still buffered are exactly the messages received, in arrival order. *)
 Theorem C14_sequential_exactly_once_in_order :
   forall c, var c = v_fixed -> forall ops b o t,
   run c box0 ops = (b, o) -> lossless o -> handed t o ++ buffered b t = received t ops.
 Proof. exact sequential_exactly_once_in_order. Qed.
 Print Assumptions C14_sequential_exactly_once_in_order.
 
-(* (2) For ALL interleavings at lock granularity of any number of concurrent receive and send calls on the same and on
-   different topics (any limits): no message is ever handed over twice. *)
-Theorem C14_at_most_once :
+(* (6) The pinned upstream Box (model TSS.Box.Conc, tied to msgbox.go by the same correspondence check until the repair
+   b40b5e7 of /repo): the statement was FALSE.  Three witness schedules - a message stored after the topic started and
+   left buffered (late), a message added to a store that Send had detached (lost), a message overtaking the drain
+   (order); each was replayed on the real upstream code through the yield hooks.  Only "never twice" held. *)
+Theorem C14_upstream_at_most_once :
   forall limit maxTopics ths sched,
   NoDup (flat_map pc_msgs ths) -> NoDup (handoffs_of (snd (crun limit maxTopics ths sched))).
 Proof. exact at_most_once. Qed.
-Print Assumptions C14_at_most_once.
-
-(* (3) The full statement (exactly once AND in arrival order, for all interleavings) is FALSE of the faithful model of the
-   unchanged code.  Three witness schedules; each is replayed on the real msg.Box by the check through the yield hooks
-   and listed in KNOWN_FINDINGS.txt (C14-a late, C14-b lost, C14-c order). *)
-Theorem C14_exactly_once_late_refuted :
+Theorem C14_upstream_late_refuted :
   let r := run100 [RCheck (Mc 1 1); SBegin Tc] [0; 1; 1; 0; 0; 0; 0; 0]%nat in
   handoffs_of (snd r) = [] /\ cbuffered (final_box r) Tc = [Mc 1 1] /\ cstart (final_box r) = [Tc] /\
   snd (fst r) = [Fin; Fin].
 Proof. exact late_refuted. Qed.
-Theorem C14_exactly_once_lost_refuted :
+Theorem C14_upstream_lost_refuted :
   let r := run100 [RCheck (Mc 1 0); RCheck (Mc 1 1); SBegin Tc] [0; 0; 0; 0; 0; 0; 1; 1; 1; 1; 2; 2; 2; 1]%nat in
   handoffs_of (snd r) = [Mc 1 0] /\ cbuffered (final_box r) Tc = [] /\ snd (fst r) = [Fin; Fin; Fin].
 Proof. exact lost_refuted. Qed.
-Theorem C14_in_order_refuted :
+Theorem C14_upstream_order_refuted :
   let r := run100 [RCheck (Mc 1 1); RCheck (Mc 1 2); SBegin Tc; RCheck (Mc 1 3)]
                   [0; 0; 0; 0; 0; 0; 1; 1; 1; 1; 1; 2; 2; 3; 2; 2]%nat in
   handoffs_of (snd r) = [Mc 1 3; Mc 1 1; Mc 1 2] /\ snd (fst r) = [Fin; Fin; Fin; Fin].
 Proof. exact order_refuted. Qed.
-Print Assumptions C14_exactly_once_late_refuted.
-Print Assumptions C14_exactly_once_lost_refuted.
-Print Assumptions C14_in_order_refuted.
+Print Assumptions C14_upstream_at_most_once.
+Print Assumptions C14_upstream_late_refuted.
+Print Assumptions C14_upstream_lost_refuted.
+Print Assumptions C14_upstream_order_refuted.
 
-(* non-vacuity *)
+(* non-vacuity: a run with two readers and a sending goroutine in which messages arrive before, during and after the
+   drain of the first Send meets every premise of (1) and (2); a sequential operation list meets those of (5) *)
 Theorem C14_examples :
+  (let w := wrun cex ex_scripts ex_sched in
+   one_reader (map (mkTh Idle) ex_scripts) /\ slossless (wlog w) /\ forallb finished (wths w) = true /\
+   handoffs (wlog w) = [Ms 1 1; Ms 1 2; Ms 1 3; Ms 2 4; Ms 1 5] /\
+   arrivals (wlog w) = [Ms 1 1; Ms 1 2; Ms 1 3; Ms 2 4; Ms 1 5] /\ is_started (wbox w) Ts = true) /\
   (lossless (snd (run (cfix 100 10 6) box0 seq_ops)) /\
    handed (T 0) (snd (run (cfix 100 10 6) box0 seq_ops)) = [M 1 0 0; M 2 0 1; M 1 0 2] /\
-   buffered (fst (run (cfix 100 10 6) box0 seq_ops)) (T 5) = [M 1 5 7; M 2 5 8]) /\
-  (NoDup (flat_map pc_msgs [RCheck (Mc 1 1); RCheck (Mc 1 2); SBegin Tc; RCheck (Mc 1 3)]) /\
-   length (handoffs_of (snd (run100 [RCheck (Mc 1 1); RCheck (Mc 1 2); SBegin Tc; RCheck (Mc 1 3)]
-                                    [0; 0; 0; 0; 0; 0; 1; 1; 1; 1; 1; 2; 2; 3; 2; 2]%nat))) = 3%nat).
-Proof. split; [exact seq_nonvacuous|exact at_most_once_nonvacuous]. Qed.
+   buffered (fst (run (cfix 100 10 6) box0 seq_ops)) (T 5) = [M 1 5 7; M 2 5 8]).
+Proof. split; [exact sync_example|exact seq_nonvacuous]. Qed.
 Print Assumptions C14_examples.
